@@ -255,6 +255,18 @@ def run_case(ctx, k, rng):
 
     for stepno in range(steps):
         ops = ["add", "sub", "neg", "mul", "rmul", "div", "mismatch_hom"]
+        if kind == "exact" and not long_case and rng.random() < 0.15:
+            # the public attribute is rebound ("keep the top k depths", append a depth): from now on the object denotes that function
+            t = int(rng.integers(0, len(pool)))
+            cp_now = [[[float(x), float(y)] for x, y in dp] for dp in (pool[t].critical_pairs or snaps[t]["cp"])]
+            if rng.random() < 0.6 and len(cp_now) >= 2:
+                cp_new = cp_now[: int(rng.integers(1, len(cp_now)))]
+            else:
+                cp_new = cp_now + gen_cp(rng)[:1]
+            pool[t].critical_pairs = cp_new
+            snaps[t] = snapshot(pool[t])
+            log.append({"op": "rebind critical_pairs", "i": t, "depths": len(cp_new)})
+            ctx.note("critical_pairs rebound")
         if kind == "grid":
             ops += ["snap", "lc", "avg", "mismatch_grid", "snap", "lc"]
         op = str(rng.choice(ops))
